@@ -101,7 +101,7 @@ def run(res, tier, seed):
         cmds = "[" + "; ".join(CMD[k] for k in c["cmds"]) + "]"
         obs = "[" + "; ".join(P.coq_mode_toks(p) for p in prefixes) + "]"
         rows.append("(%d%%N, %s, %s, %s)" % (i, coq_opts(c["opts"]), cmds, obs))
-    body.append("Definition rows : list (N * opts * list modecmd * list (list tok)) := [%s]." % ";\n ".join(rows))
+    rows_def = "Definition rows : list (N * opts * list modecmd * list (list tok)) := [%s]."
     body.append("Definition dm := map sc_call BTGen.Lifecycle.disable_mouse_calls.")
     body.append("Definition only_modes (ks : list tok) := filter (fun k => match k with TSet _ | TReset _ => true | _ => false end) ks.")
     body.append("Definition tok_eqb (a b : tok) := match a, b with TSet x, TSet y | TReset x, TReset y => (x =? y)%N | _, _ => false end.")
@@ -117,9 +117,8 @@ def run(res, tier, seed):
                 "ok && match obs with [] => true | _ => toks_eqb (only_modes (t0 ++ el_out s)) (last obs []) end.")
     body.append("Definition bad_spec := map (fun x => fst (fst (fst x))) (filter (fun x => negb (spec_row x)) rows).")
     body.append("Definition bad_model := map (fun x => fst (fst (fst x))) (filter (fun x => negb (model_row x)) rows).")
-    vals, _ = C.coq_eval("cases_C12", PRE, body, ["bad_spec", "bad_model"], timeout=900)
-    bad_spec = C.parse_nat_list(C.parse_coq_value(vals["bad_spec"]).replace("%N", ""))
-    bad_model = C.parse_nat_list(C.parse_coq_value(vals["bad_model"]).replace("%N", ""))
+    bad_spec, _ = C.coq_eval_sharded("cases_C12s", PRE, rows, rows_def, body, "bad_spec", shard=150)
+    bad_model, _ = C.coq_eval_sharded("cases_C12m", PRE, rows, rows_def, body, "bad_model", shard=150)
     res.oblige("Spec on real output (Coq: Spec.Modes.apply over the real mode tokens sampled at every Update, both cursor conventions), %d programs" % len(cases),
                not bad_spec, [cases[i] for i in bad_spec[:2]])
     res.oblige("K2: L0 model mode tokens (generated dispatch + start-up lists) = the real program's, %d programs" % len(cases), not bad_model,
@@ -133,13 +132,12 @@ def run(res, tier, seed):
             untok.append(i)
             continue
         rows2.append("(%d%%N, %s)" % (i, R.coq_toks(ts)))
+    rows2_def = "Definition runs : list (N * list tok) := [%s]."
     body2 = ["Definition hist : list row := [repeat 120%N 80; repeat 121%N 80; repeat 122%N 80].",
-             "Definition runs : list (N * list tok) := [%s]." % ";\n ".join(rows2),
              "Fixpoint rows_eqb (a b : list row) := match a, b with [], [] => true | x :: a', y :: b' => (if list_eq_dec N.eq_dec x y then true else false) && rows_eqb a' b' | _, _ => false end.",
              "Definition keeps (sh : bool) (ks : list tok) := rows_eqb (firstn 3 (tape (vmain (vt_run sh (vt_init 80 24 hist 3) ks)))) hist.",
              "Definition bad_main := map fst (filter (fun x => negb (keeps true (snd x) && keeps false (snd x))) runs)."]
-    vals2, _ = C.coq_eval("cases_C12_main", PRE, body2, ["bad_main"], timeout=900)
-    bad_main = C.parse_nat_list(C.parse_coq_value(vals2["bad_main"]).replace("%N", ""))
+    bad_main, _ = C.coq_eval_sharded("cases_C12_main", PRE, rows2, rows2_def, body2, "bad_main", shard=40)
     res.oblige("Spec on real output: an alt-screen program that never leaves it does not alter the main-screen rows above the cursor (%d programs, full token stream through Model/VT)" % len(mains),
                not bad_main and not untok, [cases[i] for i in (bad_main + untok)[:2]])
     found = False
